@@ -182,11 +182,19 @@ func (b *c03Ref) take(now, n int64) bool {
 
 //verif:entry tier=quick,thorough cover=granted,denied,refilled,shared
 //verif:stub (*golang.org/x/time/rate.Limiter).AllowN c03AllowN
-//verif:doc TokenLimiter histories: rate in 1..8 (case split), burst symbolic in [1,2^20], two instances sharing key and store, 3 (quick) / 4 (thorough) AllowN calls at symbolic non-decreasing whole seconds (callers' clocks agree with the store's clock: assumption) with n in [0, burst+1]; every answer equals the reference bucket's, the store is never bypassed, and every window obeys sum(granted) <= burst + rate*elapsed.
+//verif:doc TokenLimiter histories: rate in 1..8 (case split), burst symbolic in [1,2^20], two instances sharing key and store, 3 AllowN calls (thorough: every rate 1..8 with 3 calls, rates 1 and 3 with 4 calls) at symbolic non-decreasing whole seconds (callers' clocks agree with the store's clock: assumption) with n in [0, burst+1]; every answer equals the reference bucket's, the store is never bypassed, and every window obeys sum(granted) <= burst + rate*elapsed.
 func Verif_C03_TokenHistory() {
 	var rate int64
+	steps := 3
 	if rt.Tier() > 0 {
-		rate = int64(rt.Choose("rate", 8) + 1)
+		// thorough: every rate 1..8 with 3 calls, rates 1 and 3 with 4 calls (4 calls at all 8 rates
+		// did not finish in 25 minutes of solver time)
+		if rt.Choose("deep", 2) == 1 {
+			rate = []int64{1, 3}[rt.Choose("rate", 2)]
+			steps = 4
+		} else {
+			rate = int64(rt.Choose("rate", 8) + 1)
+		}
 	} else {
 		rate = []int64{1, 3, 8}[rt.Choose("rate", 3)] // quick: three rates (every rate 1..8 is covered by TokenStep)
 	}
@@ -194,10 +202,6 @@ func Verif_C03_TokenHistory() {
 	store := &redis.Redis{}
 	ls := []*TokenLimiter{NewTokenLimiter(int(rate), int(burst), store, "tk"), NewTokenLimiter(int(rate), int(burst), store, "tk")}
 	ref := &c03Ref{rate: rate, burst: burst, fresh: true}
-	steps := 3
-	if rt.Tier() > 0 {
-		steps = 4
-	}
 	now := rt.Int("t0_s", 1, 1<<33)
 	times := make([]int64, steps)
 	grants := make([]int64, steps)
